@@ -420,4 +420,43 @@ example : FirstLine ⟨1000, 10, [0, 0, 1, 2, 1, 2, 1, 2, 0, 0, 0, 1, 2]⟩ 2 2 
 theorem duration_spec (w : Wave) (P : Nat) :
     w.durationNs P = (w.lineTimeNs P).map fun (lt : Int) => lt * ((numBlocks w.numBoundaries P : Nat) : Int) := rfl
 
+/-! ## Per-pixel timestamps -/
+
+/-- **Pixel timestamps are the floor of the mean of the pixel's samples and lie inside the pixel**:
+    whenever `(last − first)·k < 2⁶³` over the acquisition (no split; it takes an acquisition longer
+    than `2⁶³/k` ns to violate it), `reconstruct_image(timestamps, reduce=timestamp_mean)` yields for
+    every complete pixel `⌊Σ samples / k⌋`, which is between the pixel's smallest (= first) and
+    largest (= last) sample. -/
+theorem pixel_ts_spec (w : Wave) (k : Nat) (hk : w.pixelSize = some k)
+    (hpix : (rowsOf k w.usedTs).flatten ≠ [])
+    (hspan : (listMax (rowsOf k w.usedTs).flatten - listMin (rowsOf k w.usedTs).flatten) * k ≤ I64MAX) :
+    w.pixMean = some ((rowsOf k w.usedTs).map fun r => r.sum / (k : Int)) ∧
+    ∀ r ∈ rowsOf k w.usedTs, r.length = k ∧ listMin r ≤ r.sum / (k : Int) ∧ r.sum / (k : Int) ≤ listMax r := by
+  have hk0 := pixelSize_pos w k hk
+  have hlen := rowsOf_row_length k hk0 w.usedTs
+  constructor
+  · unfold Wave.pixMean
+    rw [hk]
+    exact tsMeanRows_floor _ k hk0 hlen hpix hspan
+  · intro r hr
+    have hl := hlen r hr
+    have := floor_mean_mem r (by intro h; rw [h] at hl; simp at hl; omega)
+    rw [hl] at this
+    exact ⟨hl, this⟩
+
+/-- Placement: `Kymo.timestamps[r][l]` is the timestamp of pixel `l·P + r` (`0` for the padding of an
+    unfinished last line). -/
+theorem kymo_ts_placement (w : Wave) (P : Nat) (pix : List Int) (h : w.pixMean = some pix) :
+    w.kymoTimestamps P = some ((List.range P).map fun r =>
+      (List.range (numBlocks pix.length P)).map fun l => pix.getD (l * P + r) 0) := by
+  unfold Wave.kymoTimestamps
+  rw [h, Option.map_some, kymoImage_eq]
+
+/-- Non-vacuity: lead-in 2, three pixels of two samples, dead time 3, then a fourth pixel. -/
+example : (⟨1000, 10, [0, 0, 1, 2, 1, 2, 1, 2, 0, 0, 0, 1, 2]⟩ : Wave).kymoTimestamps 3
+    = some [[1025, 1115], [1045, 0], [1065, 0]] := by
+  have h := (pixel_ts_spec ⟨1000, 10, [0, 0, 1, 2, 1, 2, 1, 2, 0, 0, 0, 1, 2]⟩ 2 (by decide) (by decide)
+    (by decide)).1
+  rw [kymo_ts_placement _ 3 _ h]; decide
+
 end Verif.C03
